@@ -182,4 +182,35 @@ PROPS = {
         'trusted': NUMPY_TRUST + ['exp/log/db2lin axioms (ground instances)', 'RamanSolver._create_lumped_losses + numpy.cumprod'],
         'extra': [{'name': 'lumped_losses', 'kind': 'bounded', 'script': 'bounded/lumped_losses.py'}],
     },
+    'C11': {
+        'level': 'other',
+        'claim': 'compute_constrained_path proved against its route contract on five structure-fixed scenarios (symbolic node '
+                 'identities, three candidate routes ordered by weight as networkx is assumed to deliver them): end points, '
+                 'include nodes crossed in order, first (= lightest) matching candidate, STRICT unsatisfiable -> blocked with '
+                 'NO_PATH_WITH_CONSTRAINT, only-LOOSE unsatisfiable -> unconstrained shortest path, explicit-path shortcut must '
+                 'respect the whole include list; ispart = order-preserving sub-sequence. Everything else of the statement '
+                 '(real graph search, minimal fibre length against an independent all-simple-paths oracle, route list clean-up, '
+                 'reverse paths) is a bounded stand-in on small designed meshes.',
+        'level_note': 'NOT an unbounded proof: the deductive obligations quantify over all node identities/request ids but over a '
+                      'fixed candidate-list shape (3 candidates, include lists of length <= 2); networkx shortest_simple_paths / '
+                      'dijkstra_path / all_simple_paths are assumed contracts; optimality and correct_json_route_list are only '
+                      'checked bounded (topologies line3, ring3, star4, ring4, mesh4[, full4]; include lists up to 3 hops, every '
+                      'STRICT/LOOSE mix)',
+        'trusted': ['networkx.shortest_simple_paths (assumed: all simple paths by non-decreasing weight)',
+                    'networkx.dijkstra_path (assumed: first of those)', 'explicit_path call-site summary'],
+        'extra': [{'name': 'routing', 'kind': 'bounded', 'script': 'bounded/routing.py', 'timeout': 1500}],
+    },
+    'C12': {
+        'level': 'other',
+        'claim': 'isdisjoint proved to return 0 exactly when two three-node paths have no common directed link (symbolic node '
+                 'identities; result in {0,1}); the statement itself - synchronised requests never share a ROADM-to-ROADM link '
+                 'in either direction, DisjunctionError otherwise, pair completeness - is decided only by a bounded stand-in '
+                 'running the real compute_path_dsjctn on small designed meshes against an independent oracle.',
+        'level_note': 'NOT an unbounded proof: compute_path_dsjctn (250 lines of nested candidate pruning over id()-keyed dicts) '
+                      'is outside the reach of the contract engine; bounded: topologies ring3, ring4, mesh4, house5[, full4], '
+                      'pairs over 6x8 ordered site pairs with brute-force completeness, triples, overlapping groups, include '
+                      'constraints',
+        'trusted': [],
+        'extra': [{'name': 'disjunction', 'kind': 'bounded', 'script': 'bounded/disjunction.py', 'timeout': 1500}],
+    },
 }
